@@ -15,7 +15,7 @@ func init() {
 		Title:     "Names from clients never reach files outside their configured directories",
 		Technique: "whole-program provenance of path arguments to file-system sinks (flow-insensitive closure over assignments, parameters via the call graph, returns and field stores), must-facts for the validators",
 		Decides: "R19.1: for every call in the server packages to a path-taking function of os / path/filepath (and os.OpenRoot), every leaf of the path argument's provenance is a constant, a configured directory or file name, a name handed out by the file system itself (temp files, directory walks), a validated group name, or the rooted-clean idiom path.Clean(\"/\"+x); anything else (request fields, message fields) is reported with the sink and the leaf. " +
-			"R19.2: a Group's name is stored only after validGroupName accepted it; validGroupName rejects backslashes and the platform separator and then requires path.Clean(\"/\"+name) == \"/\"+name and != \"/\"; validUsername is the same rule or empty. " +
+			"R19.2: a Group's name is stored only after validGroupName accepted it; validGroupName rejects backslashes and the platform separator and then requires path.Clean(\"/\"+name) == \"/\"+name and != \"/\"; validUsername is the same rule or empty, and every successful return of Description.GetPermission (password or token login) is dominated by validUsername of the name returned. " +
 			"R19.3: static files, recordings and disk writes go through *os.Root methods on roots opened on configured directories; the recordings delete action refuses names containing a separator; recording file names are built from the clock, the sanitised username and the extension only, and sanitise replaces both separators.",
 		NotDecided: []string{
 			"that parseGroupName accepts only names validGroupName accepts (an agreement of two functions over all strings)",
@@ -50,7 +50,7 @@ var c19Config = [][2]string{
 func runC19(c *Ctx) {
 	p := c.P
 	c.Rule("R19.1", "E8", "path arguments of file-system sinks have only constant, configured, file-system-provided, validated or rooted-clean leaves", 25)
-	c.Rule("R19.2", "E2", "group names are stored only when valid; the validator's structure", 5)
+	c.Rule("R19.2", "E2", "group names are stored only when valid; usernames returned by a login are valid; the validator's structure", 6)
 	c.Rule("R19.3", "E4", "os.Root discipline for static files, recordings and disk writes; recording names", 6)
 	env := &provEnv{p: p, seen: map[string]bool{}, config: map[types.Object]string{}, fieldOK: map[*types.Var]bool{}}
 	for _, g := range c19Config {
@@ -521,7 +521,42 @@ func (e *provEnv) paramLeaves(fs *FuncSrc, idx int, at token.Pos) []provLeaf {
 	return out
 }
 
+// c19Usernames: every username that a login hands back was accepted by validUsername.
+func c19Usernames(c *Ctx) {
+	p := c.P
+	gp := p.Func("group", "Description", "GetPermission")
+	vu := p.Func("group", "", "validUsername")
+	if gp == nil || vu == nil {
+		c.Unknown("R19.2", "username validation", 0, "Description.GetPermission / validUsername not found")
+		return
+	}
+	info := gp.Pkg.TypesInfo
+	ff := p.Facts().Analyze(gp)
+	nret, bad := 0, ""
+	for _, ret := range ff.Returns() {
+		if len(ret.Results) != 3 || !isNilIdent(info, ret.Results[2]) {
+			continue
+		}
+		nret++
+		st, _ := ff.At(ret)
+		ut := ff.term(ret.Results[0])
+		ok := false
+		if st != nil && ut != nil {
+			for _, f := range st.Facts() {
+				if f.Op == "true" && f.Pos && f.A.K == 'k' && f.A.Obj == types.Object(vu.Obj) && len(f.A.Args) == 1 && (f.A.Args[0].String() == ut.String() || st.EqualUnder(f.A.Args[0], ut)) {
+					ok = true
+				}
+			}
+		}
+		if !ok {
+			bad = p.PosStr(ret.Pos())
+		}
+	}
+	c.Check(nret > 0 && bad == "", "R19.2", "every login returns a username that validUsername accepted", gp.Pos(), "each successful return of GetPermission is dominated by validUsername(username) for the name returned (password and token logins alike)", "a login path hands back a username that was not validated (return at "+bad+"): names like ../x or a/b reach recording file names and the user tables")
+}
+
 func c19Validators(c *Ctx, env *provEnv) {
+	c19Usernames(c)
 	p := c.P
 	eng := p.Facts()
 	// the only store to Group.name is dominated by validGroupName(name)
